@@ -1,6 +1,8 @@
 package core
 
 import (
+	_ "embed"
+	"encoding/json"
 	"fmt"
 	"go/constant"
 	"go/token"
@@ -48,7 +50,7 @@ func (d *D) Of(v ssa.Value) string {
 	defer func() { d.depth-- }()
 	switch x := v.(type) {
 	case *ssa.Parameter:
-		return x.Name()
+		return paramName(x)
 	case *ssa.FreeVar:
 		if b := freeVarBinding(x); b != nil {
 			if _, isAlloc := b.(*ssa.Alloc); !isAlloc {
@@ -709,3 +711,32 @@ func (d *D) nestedFields(base ssa.Value) string {
 	}
 	return "{" + strings.Join(parts, ",") + "}"
 }
+
+//go:embed refparams.json
+var refParamsJSON []byte
+
+var refParams map[string][]string
+
+// paramName returns the reference name of a parameter: the name it had, at
+// that position, when the rules were written (frozen table refparams.json,
+// regenerate with `dtcheck -dump params`). Rules are written against these
+// names, so renaming a parameter or receiver in the repository does not change
+// any descriptor. Functions not in the table use their current names.
+func paramName(p *ssa.Parameter) string {
+	if refParams == nil {
+		refParams = map[string][]string{}
+		_ = json.Unmarshal(refParamsJSON, &refParams)
+	}
+	fn := p.Parent()
+	if names, ok := refParams[fn.String()]; ok {
+		for i, q := range fn.Params {
+			if q == p && i < len(names) && len(names) == len(fn.Params) {
+				return names[i]
+			}
+		}
+	}
+	return p.Name()
+}
+
+// ParamName is the reference name of a parameter (see paramName).
+func ParamName(p *ssa.Parameter) string { return paramName(p) }
